@@ -274,4 +274,138 @@ theorem no_write_after_lost {w : World} (h : WInv w) (op : Op) (henv : Env w op)
     | connack cr => intro _; rfl
     | onDisc q r => trivial
 
+/-! ### C09: PUBREC moves the exchange from the publish window to the release window -/
+
+/-- the world in which the PUBREL is first transmitted: the PUBLISH entry is gone (its retry timer cancelled), a PUBREL
+    request under the same identifier, with the same Deferred, sits in the release window -/
+def afterPubrec (w : World) (a m rid t : Nat) (bs : Bytes) (initialT : Nat) : World :=
+  { dropArmed w ⟨a, .pub, m, rid⟩ t with
+    reqs := (dropArmed w ⟨a, .pub, m, rid⟩ t).reqs.set w.nextReq
+      { kind := .pubrel, msgId := m, qos := (w.req rid).qos, encoded := bs, dfd := (w.req rid).dfd, alarm := none, initial := initialT, ivValue := initialT, ivK := 1, bandwith := 1, factor := 1, seq := (w.req rid).seq },
+    nextReq := w.nextReq + 1,
+    ents := (dropArmed w ⟨a, .pub, m, rid⟩ t).ents ++ [⟨a, .rel, m, w.nextReq⟩] }
+
+theorem handlePUBREC_effect {w : World} (h : WInv w) (p : Nat) (ppr : Proto) (hpp : w.protos.get? p = some ppr)
+    (hlive : ppr.lost = false) (hconn : ppr.state = .connected) (m : Nat) (hm : m < 65536) (rid : Nat)
+    (hl : Ents.lookup w.ents ppr.addr .pub m = some rid) :
+    ∃ t bs, (w.req rid).alarm = some t ∧ encodePUBREL (m : Int) = .ok bs ∧
+      handlePUBREC p m w = (retryReleaseW p w.nextReq false (afterPubrec w ppr.addr m rid t bs ppr.initialT), none) := by
+  have hpa : w.paddr p = ppr.addr := by simp [World.paddr, getD_of_get? hpp]
+  obtain ⟨bs, hbs⟩ := encodeAck_ok 0x62 m hm
+  have hbs' : encodePUBREL (m : Int) = .ok bs := hbs
+  have he := Ents.lookup_some hl
+  have hq : (⟨ppr.addr, .pub, m, rid⟩ : Ent).box ≠ .queue := by simp
+  obtain ⟨t, d, p0, ht, hpe, hd, hnf, hkey⟩ := window_entry_facts h p ppr hpp hlive hconn he rfl hq
+  simp only at ht hpe hd hkey
+  refine ⟨t, bs, ht, hbs', ?_⟩
+  unfold handlePUBREC
+  generalize hE : encodePUBREL (m : Int) = E
+  rw [hbs'] at hE; subst hE
+  simp only [read_apply, hpa, hl]
+  have s1 : cancelAlarm (w.req rid).alarm w = ({ w with timers := cancelT w t }, none) := by
+    rw [ht]; exact cancelTimer_pending w t _ hpe
+  rw [seq_ok s1]
+  have s2 : setEnts (fun es => Ents.remove es ppr.addr .pub m) { w with timers := cancelT w t }
+      = (dropArmed w ⟨ppr.addr, .pub, m, rid⟩ t, none) := rfl
+  rw [seq_ok s2]
+  simp only [read_apply]
+  have hmem := dropArmed_mem h he hq t
+  have hk := h.keyId _ he hq
+  have hidf : ∀ y ∈ (dropArmed w ⟨ppr.addr, .pub, m, rid⟩ t).ents, idOf (dropArmed w ⟨ppr.addr, .pub, m, rid⟩ t) y ≠ m := by
+    intro y hy hc
+    obtain ⟨hy1, hy2⟩ := (hmem y).mp hy
+    exact hy2 (h.idUnique y hy1 _ he (by rw [show idOf w y = m from hc]; simp [idOf]) (by rw [show idOf w y = m from hc]; exact hk.2))
+  have hlook : Ents.lookup (dropArmed w ⟨ppr.addr, .pub, m, rid⟩ t).ents ppr.addr .rel m = none := by
+    cases hl2 : Ents.lookup (dropArmed w ⟨ppr.addr, .pub, m, rid⟩ t).ents ppr.addr .rel m with
+    | none => rfl
+    | some r2 => exact absurd (by simp [idOf]) (hidf _ (Ents.lookup_some hl2))
+  have hins : Ents.insert (dropArmed w ⟨ppr.addr, .pub, m, rid⟩ t).ents ppr.addr .rel m (dropArmed w ⟨ppr.addr, .pub, m, rid⟩ t).nextReq
+      = (dropArmed w ⟨ppr.addr, .pub, m, rid⟩ t).ents ++ [⟨ppr.addr, .rel, m, w.nextReq⟩] := Ents.insert_of_lookup_none _ hlook
+  have hpa' : (dropArmed w ⟨ppr.addr, .pub, m, rid⟩ t).paddr p = ppr.addr := hpa
+  have hpi' : ((dropArmed w ⟨ppr.addr, .pub, m, rid⟩ t).proto p).initialT = ppr.initialT := by
+    show (w.proto p).initialT = _; rw [getD_of_get? hpp]
+  simp only [Step.seq, mod_apply, setEnts, retryRelease, World.setEnts]
+  rw [hpa', hpi', hins]
+  rfl
+
+/-- afterwards no PUBLISH entry carries the identifier any more, so nothing can resend the PUBLISH (`settled_is_silent`,
+    and `_syncSession` resumes entries by the window they are in) -/
+theorem afterPubrec_no_publish {w : World} (h : WInv w) (a m rid t : Nat) (bs : Bytes) (i : Nat) (he : (⟨a, .pub, m, rid⟩ : Ent) ∈ w.ents) :
+    ∀ y ∈ (afterPubrec w a m rid t bs i).ents, ¬ (y.box = .pub ∧ y.key = m ∧ y.addr = a) ∧ y.rid ≠ rid := by
+  intro y hy
+  have hmem := dropArmed_mem h he (by simp) t
+  simp only [afterPubrec, List.mem_append, List.mem_singleton] at hy
+  rcases hy with hy | rfl
+  · obtain ⟨hy1, hy2⟩ := (hmem y).mp hy
+    refine ⟨fun hc => ?_, fun hc => hy2 (h.ridUnique y hy1 _ he hc)⟩
+    have hk := h.keyId _ he (by simp)
+    have hky := h.keyId y hy1 (by rw [hc.1]; simp)
+    exact hy2 (h.idUnique y hy1 _ he (by simp [idOf, hc.1, hc.2.1]) (by simp [idOf, hc.1, hc.2.1]; exact hk.2))
+  · refine ⟨by simp, ?_⟩
+    have := h.ridFresh _ he
+    simp only at this ⊢
+    omega
+
+/-! ### C06: inbound PUBLISH by QoS -/
+
+theorem handlePUBLISH_qos0 (p : Nat) (m : RxMsg) (w : World) (h : m.qos = 0) : handlePUBLISH p m w = deliver p m w := by
+  simp [handlePUBLISH, h]
+
+/-- QoS 1: exactly one PUBACK echoing the received identifier, then the delivery -/
+theorem handlePUBLISH_qos1 (p : Nat) (m : RxMsg) (w : World) (h : m.qos = 1) (i : Nat) (hi : m.msgId = some i) (hlt : i < 65536) :
+    ∃ bs, encodePUBACK (i : Int) = .ok bs ∧ handlePUBLISH p m w = (write p bs ;; deliver p m) w := by
+  obtain ⟨bs, hbs⟩ := encodeAck_ok 0x40 i hlt
+  have hbs' : encodePUBACK (i : Int) = .ok bs := hbs
+  refine ⟨bs, hbs', ?_⟩
+  unfold handlePUBLISH
+  rw [hi]
+  generalize hE : encodePUBACK (((some i).getD 0 : Nat) : Int) = E
+  have : encodePUBACK (((some i).getD 0 : Nat) : Int) = .ok bs := hbs'
+  rw [this] at hE; subst hE
+  simp [h]
+
+/-- QoS 2: the message is stored under its identifier (a repeat replaces it), a PUBREC echoing the identifier is
+    written, nothing is delivered yet -/
+theorem handlePUBLISH_qos2 (p : Nat) (m : RxMsg) (w : World) (h : m.qos = 2) (i : Nat) (hi : m.msgId = some i) (hlt : i < 65536) :
+    ∃ bs, encodePUBREC (i : Int) = .ok bs ∧
+      handlePUBLISH p m w = (({ w with rx := Rx.insert w.rx (w.paddr p) i m } : World).emit (.write p bs), none) := by
+  obtain ⟨bs, hbs⟩ := encodeAck_ok 0x50 i hlt
+  have hbs' : encodePUBREC (i : Int) = .ok bs := hbs
+  refine ⟨bs, hbs', ?_⟩
+  unfold handlePUBLISH
+  rw [hi]
+  generalize hE : encodePUBREC (((some i).getD 0 : Nat) : Int) = E
+  generalize encodePUBACK (((some i).getD 0 : Nat) : Int) = E1
+  have : encodePUBREC (((some i).getD 0 : Nat) : Int) = .ok bs := hbs'
+  rw [this] at hE; subst hE
+  simp [h, Step.seq, Step.mod, write, emit]
+
+/-- PUBREL for a stored message: it is removed from the store, delivered, and a PUBCOMP echoing the identifier written -/
+theorem handlePUBREL_stored (p m : Nat) (w : World) (hm : m < 65536) (msg : RxMsg) (h : Rx.lookup w.rx (w.paddr p) m = some msg) :
+    ∃ bs, encodePUBCOMP (m : Int) = .ok bs ∧
+      handlePUBREL p m w = ((Step.mod (fun w' => { w' with rx := Rx.remove w'.rx (w'.paddr p) m }) ;; deliver p msg) ;; write p bs) w := by
+  obtain ⟨bs, hbs⟩ := encodeAck_ok 0x70 m hm
+  have hbs' : encodePUBCOMP (m : Int) = .ok bs := hbs
+  refine ⟨bs, hbs', ?_⟩
+  unfold handlePUBREL
+  generalize hE : encodePUBCOMP (m : Int) = E
+  rw [hbs'] at hE; subst hE
+  simp [Step.read, h]
+
+/-! ### C04/C18: what an accepted connect() does -/
+
+/-- connect() with valid, encodable arguments on an idle protocol: exactly one packet -- the CONNECT -- is written, the
+    state becomes CONNECTING, the timeout (keepalive seconds, 10 if keepalive is 0) is armed, a fresh Deferred is returned -/
+theorem connect_effect (w : World) (p : Nat) (a : ConnectArgs) (ppr : Proto) (hpp : w.protos.get? p = some ppr)
+    (ha : allowed w p 0 = true) (hck : checkConnect a = true) (pdu : Bytes) (henc : a.toF.encode = .ok pdu) :
+    apiConnect p a w =
+      (connStartW w p { ppr with cleanStart := a.cleanStart, version := verOf a.version, state := .connecting, connReq := some w.nextCR }
+        (w.now + ticks (if a.keepalive.toNat = 0 then 10 else (a.keepalive.toNat : Rat))) a.keepalive.toNat
+        ((w.log ++ [.write p pdu]) ++ [.retPending w.nextDfd none]), none) := by
+  unfold apiConnect
+  generalize hE : a.toF.encode = E
+  rw [henc] at hE; subst hE
+  simp only [Step.seq, setProto, Step.mod, write, emit, World.emit, Step.read, callLater, newDfd, World.callLater, World.proto,
+    Dict.get?_set, ↓reduceIte, Option.getD_some, hpp, Dict.set_set, connStartW, ha, hck, Bool.not_true, Bool.false_eq_true]
+
 end Mqtt
